@@ -74,6 +74,24 @@ def _worker(a):
     return check(*a)
 
 
+def lookback_sweep(nmax):
+    """A-REAL / A-FP conformance: the proofs treat floats as reals, in which int(n * p / 100) is the exact floor of n*p/100.  Here the
+    real calc_base_height is run for every (number of values n <= nmax, look-back percentage p in 1..100): with strictly increasing
+    values and percentile 0 the result *is* the first value of the look-back tail, so it reveals the tail length."""
+    import numpy as np
+    from ampycloud.utils.utils import calc_base_height
+    bad = []
+    for n in range(1, nmax + 1):
+        vals = np.arange(n, dtype=float)
+        for p in range(1, 101):
+            k = (n * p) // 100                      # exact integer arithmetic
+            start = 0 if k == 0 else n - k          # vals[-0:] is the whole array
+            got = calc_base_height(vals, p, 0)
+            if got != float(start):
+                bad.append((n, p, float(got), float(start)))
+    return bad
+
+
 def bounded(run):
     from pyvc.runner import _pool_map
     n = 72 if run.tier == 'quick' else 1500
@@ -88,9 +106,16 @@ def bounded(run):
         for f in fails[:3]:
             failures.append({'obligation': 'bounded.C04.base_height', 'scene': desc, 'prms': prms, 'what': f,
                              'rerun': f'cd /verif && PYTHONPATH=${{PYVC_REPO_SRC:-/repo/src}}:/verif .venv312/bin/python -m bounded.c04 {k} {run.seed}'})
-    return {'label': 'B (bounded, never counted as proved)', 'bound': f'{n} scenes x percentile x look-back x exclusion subsets, seed {run.seed}',
+    nmax = 250 if run.tier == 'quick' else 1200
+    sweep = lookback_sweep(nmax)
+    for (nn, p, got, want) in sweep[:3]:
+        failures.append({'obligation': 'bounded.C04.lookback_count', 'scene': {'values': nn, 'BASE_LVL_LOOKBACK_PERC': p}, 'prms': {},
+                         'what': f'calc_base_height(arange({nn}), {p}, 0) = {got}: the look-back tail should start at value {want} (floor({nn}*{p}/100) most recent values)',
+                         'rerun': f'cd /verif && PYTHONPATH=${{PYVC_REPO_SRC:-/repo/src}} .venv312/bin/python -c "import numpy as np; from ampycloud.utils.utils import calc_base_height as f; print(f(np.arange({nn}, dtype=float), {p}, 0))"'})
+    return {'label': 'B (bounded, never counted as proved)', 'bound': f'{n} scenes x percentile x look-back x exclusion subsets, seed {run.seed}; look-back count for all (n <= {nmax}, percentage 1..100)',
+            'lookback_pairs_checked': nmax * 100, 'lookback_pairs_wrong': len(sweep),
             'scenes': n, 'distinct_cases': len(shapes), 'scenes_crashing_in_pipeline (see C08)': crashed,
-            'failures': failures[:5], 'n_failures': len(failures)}
+            'failures': failures[:6], 'n_failures': len(failures)}
 
 
 if __name__ == '__main__':
